@@ -37,6 +37,7 @@ func (r Root) String() string {
 
 // Write is one memory write (store, copy, append, writing external callee).
 type Write struct {
+	Addr  ssa.Value // the address or slice written through
 	Instr ssa.Instruction
 	Field string // "pkg.T.f" if the address is (inside) a struct field, else ""
 	Roots []Root
@@ -331,7 +332,7 @@ func (p *Program) computeEffects() {
 			AllGlobals: map[string]bool{}, WritesParam: map[int]bool{}, ReturnsFresh: fresh[fn]}
 		p.eff[fn] = e
 		addWrite := func(in ssa.Instruction, addr ssa.Value, how string) {
-			w := &Write{Instr: in, How: how}
+			w := &Write{Instr: in, How: how, Addr: addr}
 			// innermost enclosing field
 			a := addr
 		loop:
@@ -483,3 +484,5 @@ func sortedKeys(m map[string]bool) []string {
 	sort.Strings(out)
 	return out
 }
+
+func writeAddr(w *Write) ssa.Value { return w.Addr }
